@@ -414,21 +414,32 @@ func makeLineFilter(src, varname string, op token.Token, rhsVarname string) filt
 }
 
 func makeObjectIsVariadicParamFilter(src, varname string) filterFunc {
+	isVariadicParamOf := func(sig *types.Signature, obj types.Object) bool {
+		return sig.Variadic() && sig.Params().At(sig.Params().Len()-1) == obj
+	}
 	isVariadicParam := func(params *filterParams, e ast.Expr) bool {
-		if params.currentFunc == nil {
-			return false
-		}
-		funcObj, ok := params.ctx.Types.ObjectOf(params.currentFunc.Name).(*types.Func)
-		if !ok {
-			return false
-		}
-		funcSig := funcObj.Type().(*types.Signature)
-		if !funcSig.Variadic() {
-			return false
-		}
-		paramObj := funcSig.Params().At(funcSig.Params().Len() - 1)
 		obj := params.ctx.Types.ObjectOf(identOf(e))
-		return paramObj == obj
+		if obj == nil {
+			return false
+		}
+		if params.currentFunc != nil {
+			funcObj, ok := params.ctx.Types.ObjectOf(params.currentFunc.Name).(*types.Func)
+			if ok && isVariadicParamOf(funcObj.Type().(*types.Signature), obj) {
+				return true
+			}
+		}
+		// It can also be a parameter of an enclosing function literal.
+		for i := 0; i < params.nodePath.Len(); i++ {
+			lit, ok := params.nodePath.NthParent(i).(*ast.FuncLit)
+			if !ok {
+				continue
+			}
+			sig, ok := params.ctx.Types.TypeOf(lit).(*types.Signature)
+			if ok && isVariadicParamOf(sig, obj) {
+				return true
+			}
+		}
+		return false
 	}
 
 	return func(params *filterParams) matchFilterResult {
